@@ -618,6 +618,14 @@ func chunksCoverString(c *Ctx, r *Report, rule string) {
 		}
 		return false
 	}
+	startsChunk := map[*ssa.Phi]bool{}
+	allInstrs(fn, func(in ssa.Instruction) {
+		if sl := sliceOfS(valueOfInstr(in)); sl != nil && sl.Low != nil {
+			if p, ok := sl.Low.(*ssa.Phi); ok {
+				startsChunk[p] = true
+			}
+		}
+	})
 	nothingLeftIn := func(facts []Fact) bool {
 		for _, f := range facts {
 			bin, ok := f.Atom.(*ssa.BinOp)
@@ -628,8 +636,9 @@ func chunksCoverString(c *Ctx, r *Report, rule string) {
 			if !isLen || calleeNameSSA(&lc.Call) != "builtin.len" || lc.Call.Args[0] != ssa.Value(s) {
 				continue
 			}
-			_, isPhi := bin.X.(*ssa.Phi)
-			if !isPhi {
+			// the variable the rest starts at: the one the chunks s[p:...] start at (recognised by that use, not by name)
+			p, isPhi := bin.X.(*ssa.Phi)
+			if !isPhi || !startsChunk[p] {
 				continue
 			}
 			if (bin.Op == token.LSS && !f.Holds) || (bin.Op == token.GEQ && f.Holds) || (bin.Op == token.EQL && f.Holds) {
